@@ -100,6 +100,7 @@ type world struct {
 	deviate    func(site string, fd int, n int) []string
 	checks     []func(w *world, out *sched.Outcome) (string, string)
 	deadlockOK bool
+	aux        interface{} // scenario-specific state shared with derived worlds
 }
 
 func (w *world) violate(sig, format string, a ...interface{}) {
